@@ -51,7 +51,7 @@ def judge (sc : Scenario) (ctxs : List RoundCtx) : Bool × String :=
       -- requests that do not return because the environment manager's mutex is deadlocked (the core's own goroutine dump
       -- showed a TeardownEnvironment waiting for a read lock it already holds behind a waiting writer): open finding
       -- teardown_recursive_rlock (C06_finding_teardown_recursive_rlock, C06_lookup_is_code)
-      else if c.wedged && c.hungNow && hooksAfterRelease c.ro.hk then (false, "teardown_recursive_rlock")
+      else if Own.Rw.nestedInCode && c.wedged && c.hungNow && hooksAfterRelease c.ro.hk then (false, "teardown_recursive_rlock")
       -- a request that does not return is a plain violation: the model of the code as it is never
       -- hangs (C06_teardown_returns_code, C06_teardown_never_hangs_code; finding teardown_registration_race is fixed)
       else if c.after.crashed || !hooksAfterRelease c.ro.hk || c.hungNow then (false, "-")
